@@ -40,6 +40,7 @@ class Features:
     consumers: bool = False          # C07: consumers importing re-exported objects from old and new locations
     max_modules: int = 6
     overrides: bool = False          # member names shared along class hierarchies (class var / instance var / method overrides)
+    pkg_imports: bool = False        # C04: a package imports (also star-imports) names of its own submodules without listing them in __all__
     name_salt: Optional[int] = None  # permutes the alphabetical order of module names without changing the structure
     rebind: bool = False             # C03: later definitions that differ from the earlier one (docstring dropped, other decorator, other literal type, other kind)
     local_imports: bool = False      # C04: function-local imports under names the enclosing scope binds to something else; class-level imports of names used earlier in the class body
@@ -52,7 +53,7 @@ class Features:
 
     @classmethod
     def resolution(cls) -> 'Features':      # C04
-        return cls(reexports=False, star=True, duplicates=False, main_blocks=False, local_imports=True)
+        return cls(reexports=False, star=True, duplicates=False, main_blocks=False, local_imports=True, pkg_imports=True, multi_root=True)
 
     @classmethod
     def history(cls) -> 'Features':         # C02
@@ -158,7 +159,7 @@ LITERALS = [('1', 'int'), ('2.5', 'float'), ("'s'", 'str'), ("b'b'", 'bytes'), (
 BLOCKS = ['if', 'try', 'with', 'for', 'try-finally', 'if-else', 'if-name-ne', 'if-not-main', 'while-break', 'if-name-ne-rev',
           'if-elif', 'with-as', 'if-name-other-ne']
 
-DOC_LAYOUTS = ['single', 'multi', 'ragged', 'leading-blank', 'tabs', 'raw', 'concat', 'trailing-blank', 'none', 'empty', 'quote-below']
+DOC_LAYOUTS = ['single', 'multi', 'ragged', 'leading-blank', 'tabs', 'raw', 'concat', 'trailing-blank', 'single-trailing', 'single-tab', 'single-leading', 'none', 'empty', 'quote-below']
 
 
 class _Gen:
@@ -191,7 +192,7 @@ class _Gen:
         if doc is None:
             return []
         r = self.r
-        layout = layout or (r.choice(DOC_LAYOUTS[:8]) if self.f.docstyle == 'plain' else r.choice(['single', 'multi', 'quote-below']))
+        layout = layout or (r.choice(DOC_LAYOUTS[:11]) if self.f.docstyle == 'plain' else r.choice(['single', 'multi', 'quote-below']))
         d = doc.replace('\\', '\\\\').replace('"""', "'''")
         if layout == 'single':
             return [f'{indent}"""{d}"""']
@@ -209,6 +210,12 @@ class _Gen:
             return [f'{indent}"{d} " "joined"']
         if layout == 'trailing-blank':
             return [f'{indent}"""{d}', '', '', f'{indent}"""']
+        if layout == 'single-trailing':
+            return [f'{indent}"""{d}  \t """']          # one line ending in blanks and a tab: standard cleaning keeps them
+        if layout == 'single-tab':
+            return [f'{indent}"""{d}\twith a tab"""']      # standard cleaning expands tabs
+        if layout == 'single-leading':
+            return [f'{indent}"""   {d}"""']
         if layout == 'quote-below':
             return [f'{indent}"""', f'{indent}{d}', f'{indent}"""']
         if layout == 'empty':
@@ -223,12 +230,13 @@ class _Gen:
         deco = None
         if in_class:
             deco = r.choice([None, None, None, 'classmethod', 'staticmethod', 'property', 'property+setter', 'old-classmethod',
-                             'old-staticmethod', 'noop'])
+                             'old-staticmethod', 'noop'] + (['noop+staticmethod', 'noop+classmethod', 'noop+property', 'staticmethod+noop', 'classmethod+noop'] if self.f.rebind else []))
         else:
             deco = r.choice([None, None, None, 'noop'])
-        first = {'classmethod': 'cls', 'old-classmethod': 'cls', 'staticmethod': '', 'old-staticmethod': ''}.get(deco or '', 'self') if in_class else ''
+        first = {'classmethod': 'cls', 'old-classmethod': 'cls', 'staticmethod': '', 'old-staticmethod': '', 'noop+staticmethod': '', 'staticmethod+noop': '',
+                 'noop+classmethod': 'cls', 'classmethod+noop': 'cls'}.get(deco or '', 'self') if in_class else ''
         extra = r.choice(['', 'a', 'a, b=1', '*args, **kw', 'a: int = 0'])
-        if deco in ('property', 'property+setter'):
+        if deco in ('property', 'property+setter', 'noop+property'):
             extra = ''
         sig = '(' + ', '.join(x for x in (first, extra) if x) + ')'
         it = Item(kind='func', name=name, uid=uid, deco=deco, sig=sig, is_async=(r.random() < .15 and deco in (None, 'noop')))
@@ -572,9 +580,13 @@ class _Gen:
             for q in range(n_if):
                 factory = r.choice([f'IFactory{zu}', '_InterfaceClass'])
                 lines += [f'ICalled{zu}_{q} = {factory}("ICalled{zu}_{q}")', f'"Interface made by a call, number {q}."']
+            me = s.modname(m.mid)
             for q in range(n_if):
                 if r.random() < .8:
                     lines += [f'@_implementer(ICalled{zu}_{q})', f'class CImpl{zu}_{q}:', f'    "implements only ICalled{zu}_{q}"']
+                elif r.random() < .7:
+                    # the first interface named is a name of this project that does not exist; the real one follows
+                    lines += [f'import {me.split(".")[0]}', f'@_implementer({me}.INoSuch{zu}_{q}, ICalled{zu}_{q})', f'class CImplMissing{zu}_{q}:', f'    "names a missing interface first"']
             items.append(Item(kind='raw', text='\n'.join(lines)))
         if f.assign_alias and visible and r.random() < .4:
             a = f'al{self.new_uid()}'
@@ -702,6 +714,18 @@ class _Gen:
                         s.moved[uid] = (p.mid, exported)
                         self.reexported.add(uid)
                 items.append(Item(kind='import', text=f'from {path} import {", ".join(parts)}', binds=binds))
+        if f.pkg_imports and not f.reexports:
+            for src in r.sample(subtree, min(len(subtree), r.randint(0, 2))):
+                exp = self.exports.get(src.mid, [])
+                if not exp:
+                    continue
+                rel = '.' + s.modname(src.mid)[len(s.modname(p.mid)) + 1:]
+                path = rel if r.random() < .6 else s.modname(src.mid)
+                if r.random() < .5:
+                    items.append(Item(kind='import', text=f'from {path} import *', star_from=s.modname(src.mid)))
+                else:
+                    picks = r.sample(exp, min(len(exp), r.randint(1, 2)))
+                    items.append(Item(kind='import', text=f'from {path} import {", ".join(n for n, _, _ in picks)}', binds=[(n, 'obj', uid) for n, uid, _ in picks]))
         exports: List[Tuple[str, int, str]] = []
         for _ in range(r.randint(0, 2)):
             d = self.make_func(p.mid, '', False, []) if r.random() < .5 else self.make_class(p.mid, '', [], [])
@@ -847,6 +871,10 @@ def _emit_items(g: Optional[_Gen], items: List[Item], indent: str, out: List[str
             name = it.name
             if it.deco in ('classmethod', 'staticmethod', 'property'):
                 out.append(f'{indent}@{it.deco}')
+            elif it.deco and '+' in it.deco and it.deco != 'property+setter':
+                # stacked decorators, outermost first; _noop hands its argument back unchanged
+                for dname in it.deco.split('+'):
+                    out.append(f'{indent}@{"_noop" if dname == "noop" else dname}')
             elif it.deco == 'property+setter':
                 out.append(f'{indent}@property')
             elif it.deco == 'noop':
@@ -938,7 +966,7 @@ def source(spec: Spec, m: Mod, r: Any) -> str:
 
 
 def _uses(it: Item) -> bool:
-    if it.kind == 'func' and it.deco == 'noop':
+    if it.kind == 'func' and it.deco and 'noop' in it.deco:
         return True
     if it.kind == 'block' and it.block in ('with', 'with-as'):
         return True
